@@ -9,6 +9,8 @@ package main
 //                 "S":[indices presented],"tamper":..,"hb":..,"out": verified claims | "reject" | "issue-error" ...}
 
 import (
+	"sync/atomic"
+	"sync"
 	"crypto"
 	"crypto/ed25519"
 	"crypto/sha256"
@@ -478,6 +480,42 @@ func c18Run(input string) string {
 	}
 	c18LastCombined = presentation
 	out, err := verifier.Parse(presentation, vopts...)
+	// several verifiers at work at the same time (a third of the cases): every one of them reaches the same verdict and the
+	// same claims as the one that worked alone
+	if len(input)%3 == 0 {
+		want := "reject"
+		if err == nil {
+			want = fmt.Sprint(c18Canon(out))
+		}
+		var wg sync.WaitGroup
+		var differs atomic.Bool
+		for g := 0; g < 6; g++ {
+			wg.Add(1)
+			go func() {
+				defer wg.Done()
+				defer func() {
+					if recover() != nil {
+						differs.Store(true)
+					}
+				}()
+				for it := 0; it < 2; it++ {
+					o, e := verifier.Parse(presentation, vopts...)
+					got := "reject"
+					if e == nil {
+						got = fmt.Sprint(c18Canon(o))
+					}
+					if got != want {
+						differs.Store(true)
+					}
+				}
+			}()
+		}
+		wg.Wait()
+		if differs.Load() {
+			res["out"] = "verdict-differs-under-concurrent-verification"
+			return emit()
+		}
+	}
 	if err != nil {
 		res["out"] = "reject"
 		if os_trace() {
